@@ -151,6 +151,10 @@ def t1(ctx):
 
 
 def replay(ctx, rec):
+    if rec.get("witness", {}).get("state") is not None:
+        from contracts import C19rows
+        from dpvc import replay as dreplay
+        return dreplay.replay_state_record(rec, C19rows.SEQ + C19rows.CONTRACTS, C19rows._states)
     r = native_concatenate_hang()
     print(r or "concatenate terminates and records one subset per matrix on the witness")
     return r is None
